@@ -12,7 +12,7 @@ pub type Generic = DynSizedStructure<TagHeader>;
 
 pub fn load_err(e: LoadError) -> String {
     match e {
-        LoadError::Memory(m) => format!("ERR {:?}", m),
+        LoadError::Memory(m) => crate::dom_common::mem_err(m),
         LoadError::NoEndTag => "ERR NoEndTag".to_string(),
     }
 }
@@ -182,7 +182,7 @@ pub fn k_basic_meminfo(ctx: &mut Ctx, t: &BasicMemoryInfoTag) {
 }
 
 pub fn k_bootloader(ctx: &mut Ctx, g: &Guarded, t: &BootLoaderNameTag) {
-    ctx.ln("bootloader", format!("typ={:?} size={} name={}", t.typ(), t.size(), s_str(g, guard(|| t.name()))));
+    ctx.ln("bootloader", format!("typ={} size={} name={}", crate::dom_common::tt_name(t.typ()), t.size(), s_str(g, guard(|| t.name()))));
 }
 
 pub fn k_bootdev(ctx: &mut Ctx, t: &BootdevTag) {
@@ -255,20 +255,14 @@ pub fn k_efi_mmap(ctx: &mut Ctx, g: &Guarded, t: &EFIMemoryMapTag) {
         ctx.ln("efi_nth", format!("{} {}", k, v));
     }
     ctx.ln("efi_count", gv(|| t.memory_areas().count()));
-    // the Debug text of a fresh iterator and of one advanced by one step: the phys_start values it lists
+    // Debug of a fresh iterator and of one advanced by one step: only whether formatting panics (texts are not compared)
     let r = guard(|| {
-        let fresh = format!("{:?}", t.memory_areas());
+        let _ = format!("{:?}", t.memory_areas());
         let mut it = t.memory_areas();
         it.next();
-        (nums_after(&fresh, " phys_start: "), nums_after(&format!("{:?}", it), " phys_start: "))
+        let _ = format!("{:?}", it);
     });
-    ctx.ln(
-        "efi_dbg",
-        match r {
-            Ok((a, b)) => format!("VAL {} after1={}", list_str(&a), list_str(&b)),
-            Err(()) => "PANIC".to_string(),
-        },
-    );
+    ctx.ln("efi_dbg", if r.is_ok() { "VAL " } else { "PANIC" });
     for (i, ops) in hists(n).iter().enumerate() {
         let mut it = t.memory_areas();
         let txt = run_hist(ops, |op| {
@@ -324,15 +318,6 @@ pub fn run_hist(ops: &[Hop], mut step: impl FnMut(Hop) -> Result<String, ()>) ->
     out.join(";")
 }
 
-/// the decimal numbers that follow each occurrence of `key` in a Debug text
-fn nums_after(s: &str, key: &str) -> Vec<u64> {
-    s.match_indices(key)
-        .map(|(i, _)| s[i + key.len()..].chars().take_while(|c| c.is_ascii_digit()).collect::<String>().parse().unwrap_or(u64::MAX))
-        .collect()
-}
-fn list_str(v: &[u64]) -> String {
-    format!("[{}]", v.iter().map(|x| x.to_string()).collect::<Vec<_>>().join(","))
-}
 
 pub fn k_elf(ctx: &mut Ctx, g: &Guarded, t: &ElfSectionsTag) {
     let head =
@@ -360,7 +345,7 @@ pub fn k_elf(ctx: &mut Ctx, g: &Guarded, t: &ElfSectionsTag) {
                     format!(
                         "{} typ={} raw={} flags={} start={} end={} size={} align={} alloc={} rem={}",
                         table + k * es,
-                        res_str(guard(|| format!("VAL {:?}", s.section_type()))),
+                        res_str(guard(|| format!("VAL {}", crate::dom_common::elf_type_name(s.section_type())))),
                         gv(|| s.section_type_raw()),
                         gv(|| s.flags().bits()),
                         gv(|| s.start_address()),
@@ -397,19 +382,9 @@ pub fn k_elf(ctx: &mut Ctx, g: &Guarded, t: &ElfSectionsTag) {
             ctx.ln("elf_nth", format!("{} {}", k, v));
         }
         ctx.ln("elf_count", gv(|| t.sections().count()));
-        // the Debug text of the iterator: the addr fields it lists, and whether it ends in "..."
+        // Debug of the iterator: only whether formatting panics (texts are not compared)
         let r = guard(|| format!("{:?}", t.sections()));
-        ctx.ln(
-            "elf_dbg",
-            match r {
-                Ok(txt) => format!(
-                    "VAL [{}] more={}",
-                    nums_after(&txt, " addr: ").iter().map(|x| format!("VAL {}", x)).collect::<Vec<_>>().join(","),
-                    txt.contains("\"...\"")
-                ),
-                Err(()) => "PANIC".to_string(),
-            },
-        );
+        ctx.ln("elf_dbg", if r.is_ok() { "VAL " } else { "PANIC" });
         for (i, ops) in hists(total).iter().enumerate() {
             let mut it = t.sections();
             let txt = run_hist(ops, |op| {
@@ -431,8 +406,7 @@ pub fn k_elf(ctx: &mut Ctx, g: &Guarded, t: &ElfSectionsTag) {
 }
 
 fn unknown_fb(e: impl core::fmt::Display) -> String {
-    let s = format!("{}", e);
-    format!("ERR UnknownFb({})", s.rsplit(' ').next().unwrap())
+    format!("ERR UnknownFb({})", crate::dom_common::last_number(&format!("{}", e)))
 }
 
 pub fn k_framebuffer(ctx: &mut Ctx, g: &Guarded, t: &FramebufferTag) {
@@ -656,13 +630,13 @@ pub fn modules_full(ctx: &mut Ctx, g: &Guarded, bi: &BootInformation) {
     let r = guard(|| {
         let mut it = bi.module_tags();
         let first = it.next().is_some();
-        let dbg_entries = format!("{:?}", it).matches("ModuleTag { type:").count();
-        (first, it.clone().count(), dbg_entries)
+        let _ = format!("{:?}", it);
+        (first, it.clone().count())
     });
     ctx.ln(
         "modules_clone",
         match r {
-            Ok((first, rest, dbg)) => format!("VAL first={} rest={} dbg={}", first, rest, dbg),
+            Ok((first, rest)) => format!("VAL first={} rest={}", first, rest),
             Err(()) => "PANIC".to_string(),
         },
     );
